@@ -29,8 +29,11 @@ def while_do_(
             obs = reactivex.from_future(source)
         else:
             obs = source
-        it = itertools.takewhile(condition, (obs for _ in infinite()))
-        return reactivex.concat_with_iterable(it)
+        return reactivex.defer(
+            lambda _: reactivex.concat_with_iterable(
+                itertools.takewhile(condition, (obs for _ in infinite()))
+            )
+        )
 
     return while_do
 
